@@ -36,6 +36,10 @@ def cases(seed, tier):
         for i in range(n_every):
             out.append({'mode': 'recovery', 'family': fam, 'n': int(rng.choice([200, 500, 1000, 5000])),
                         'seed': int(rng.integers(1 << 31))})
+    for fam in ('gaussian', 'uniform'):
+        for i in range(16 if tier == 'quick' else 200):
+            out.append({'mode': 'recovery', 'family': fam, 'n': int(rng.choice([200, 1000])), 'offset': True,
+                        'seed': int(rng.integers(1 << 31))})
     for fam in MLE:
         for i in range(n_mle):
             out.append({'mode': 'recovery', 'family': fam, 'n': int(rng.choice([200, 500, 1000, 5000], p=[.4, .3, .2, .1])),
@@ -57,6 +61,15 @@ def truth(spec):
     fam = spec['family']
     loc = float(rng.choice([-1, 1]) * 10 ** rng.uniform(0, 3))
     scale = float(10 ** rng.uniform(-2, 3))
+    if spec.get('offset'):
+        # closed-form families must stay exact for data of large magnitude and small relative spread
+        # (timestamps, lengths in metres): |loc| up to 1e9 with scale/|loc| down to 1e-9, or tiny absolute values
+        if rng.random() < 0.7:
+            loc = float(rng.choice([-1, 1]) * 10 ** rng.uniform(4, 9))
+            scale = float(abs(loc) * 10 ** rng.uniform(-9, -5))
+        else:
+            loc = float(10 ** rng.uniform(-9, -7))
+            scale = float(loc * 10 ** rng.uniform(-2, 0))
     info = {'loc': loc, 'scale': scale}
     if fam == 'gaussian':
         d = st.norm(loc, scale)
@@ -144,7 +157,7 @@ def _recovery(spec, ctx):
     # closed-form estimators are exact
     if fam == 'gaussian':
         ctx.check(abs(p['loc'] - np.mean(x)) <= 1e-12 * max(1, abs(np.mean(x))) and
-                  abs(p['scale'] - np.std(x)) <= 1e-12 * np.std(x), 'exact.closed-form', 'C04:gaussian-not-mean-std',
+                  abs(p['scale'] - np.std(x)) <= 1e-12 * np.std(x) + 4 * np.spacing(abs(np.mean(x))), 'exact.closed-form', 'C04:gaussian-not-mean-std',
                   lambda: dict(where, params=p, mean=float(np.mean(x)), std=float(np.std(x))))
     if fam == 'uniform':
         ctx.check(p['loc'] == np.min(x) and abs(p['scale'] - (np.max(x) - np.min(x))) <= 1e-12 * abs(np.max(x) - np.min(x)),
@@ -164,6 +177,13 @@ def _support(spec, ctx):
     if fam == 'truncnorm':
         lo = float(x.min() - rng.choice([0.0, 0.1, 2.0]) * x.std())
         hi = float(x.max() + rng.choice([0.0, 0.1, 2.0]) * x.std())
+        zb = int(rng.integers(3))
+        if zb == 1:        # a user bound of exactly 0 (falsy but not None)
+            x = x - x.min() + float(rng.uniform(0.05, 1.0)) * x.std()
+            lo, hi = 0.0, float(x.max() + 0.5 * x.std())
+        elif zb == 2:
+            x = x - x.max() - float(rng.uniform(0.05, 1.0)) * x.std()
+            lo, hi = float(x.min() - 0.5 * x.std()), 0.0
         model = cu.TruncatedGaussian(minimum=lo, maximum=hi, random_state=int(rng.integers(1 << 30)))
     else:
         model = getattr(cu, CLS[fam])(random_state=int(rng.integers(1 << 30)))
